@@ -325,8 +325,6 @@ func (viso *VirtualISO) makeDirEntries(item *dirItem, joliet bool) error {
 		item.dirEntry = append(item.dirEntry, dotEntry, dotDotEntry)
 	}
 
-	totalSizeBytes += dotEntry.size() + dotDotEntry.size()
-
 	// file entries
 	for _, fileItem := range item.files {
 		parts := 1
@@ -364,8 +362,6 @@ func (viso *VirtualISO) makeDirEntries(item *dirItem, joliet bool) error {
 			} else {
 				item.dirEntry = append(item.dirEntry, entry)
 			}
-
-			totalSizeBytes += entry.size()
 		}
 	}
 
@@ -391,12 +387,14 @@ func (viso *VirtualISO) makeDirEntries(item *dirItem, joliet bool) error {
 		} else {
 			item.dirEntry = append(item.dirEntry, entry)
 		}
-
-		totalSizeBytes += entry.size()
 	}
 
-	// total size must be integer number of sectors so ceil it if needed
-	totalSizeBytes = totalSizeBytes.sectors().bytes()
+	// total size must be integer number of sectors and records must not cross sector boundaries
+	if joliet {
+		totalSizeBytes = dirEntriesSize(item.dirEntryJoliet)
+	} else {
+		totalSizeBytes = dirEntriesSize(item.dirEntry)
+	}
 
 	// set correct size to first entry
 	if joliet {
@@ -630,20 +628,12 @@ func (viso *VirtualISO) writeFSStructures(gameCode string) error {
 
 	// iso directories
 	for _, item := range viso.rootDir {
-		for _, dirEntry := range item.dirEntry {
-			dirEntry.encode(&viso.fsBuf)
-		}
-
-		viso.fsBuf.padLastSector()
+		viso.fsBuf.appendDirEntries(item.dirEntry)
 	}
 
 	// joliet directories
 	for _, item := range viso.rootDir {
-		for _, dirEntry := range item.dirEntryJoliet {
-			dirEntry.encode(&viso.fsBuf)
-		}
-
-		viso.fsBuf.padLastSector()
+		viso.fsBuf.appendDirEntries(item.dirEntryJoliet)
 	}
 
 	return nil
